@@ -226,7 +226,7 @@ def check_case(case, col=None):
 # ---------------------------------------------------------------------------
 # scripted REPL: the same oracle with the read boundaries under control
 
-PIECES = ['a', 'b', ' ', '\r\n', '[', '[PEXPECT_', 'PEXPECT_PROMPT', '[PEXPECT_PROMP', '>', '+', 'PROMPT>', '\xe9', 'xyz' * 30]
+PIECES = ['a', 'b', ' ', '\r\n', '[', '[PEXPECT_', 'PEXPECT_PROMPT', '[PEXPECT_PROMP', '>', '+', 'PROMPT>', '\xe9', '\u20ac', 'caf\xe9', 'xyz' * 30]
 
 
 @st.composite
@@ -252,7 +252,9 @@ def scripted_cases(draw):
             lines.append({'out': out, 'cuts': cuts})
         cmds.append(lines)
     return {'kind': 'scripted', 'cmds': cmds, 'mode': draw(st.sampled_from(['sync', 'sync', 'async'])),
-            'maxread': draw(st.sampled_from([2000, 2000, 64, 7, 1]))}
+            'maxread': draw(st.sampled_from([2000, 2000, 64, 7, 1])),
+            # also cut after the first byte of (up to two) multi-byte characters of each output
+            'midchar': draw(st.booleans())}
 
 
 def check_scripted(case, col=None):
@@ -263,10 +265,18 @@ def check_scripted(case, col=None):
         for j, ln in enumerate(lines):
             full = ln['out'] + (P if j == len(lines) - 1 else C)
             actions.append(['recuntil', b'\n'.hex()])
+            fullb = full.encode('utf-8')
+            bcuts = set(len(full[:c].encode('utf-8')) for c in ln['cuts'])
+            if case.get('midchar'):
+                k = 0
+                for pos, ch in enumerate(full):
+                    if ord(ch) > 127 and k < 2:
+                        bcuts.add(len(full[:pos].encode('utf-8')) + 1)
+                        k += 1
             prev = 0
-            for c in ln['cuts'] + [len(full)]:
+            for c in sorted(bcuts) + [len(fullb)]:
                 if c > prev:
-                    actions.append(['w', full[prev:c].encode('utf-8').hex()])
+                    actions.append(['w', fullb[prev:c].hex()])
                     actions.append(['s', 0.012])
                     prev = c
     actions.append(['recuntil', b'\x00never\x00'.hex()])
